@@ -80,7 +80,7 @@ class C11(Prop):
                    'values are observed through datastream() (raw), the typing of aggregate fields in the schema is C02\'s business']
     REAL_VS_STUB = {'real': ['dataflows join', 'kvfile + sqlite'], 'stub': ['KVFile twin: cache-size knob and operation counter only']}
     PROBES = ['mode-inner', 'mode-half-outer', 'mode-full-outer', 'dedup-mode', 'null-key', 'duplicate-source-key', 'unmatched-target-row', 'unmatched-source-key', 'key-format-string',
-              'key-row-number', 'wildcard-mapping', 'maps-onto-existing-target-column', 'falsy-first-value', 'spill-path (cache smaller than keys)', 'big-index (>10240 keys)', 'source-kept', 'kept-source-edited-later', 'equal-numbers-rendering-differently-as-keys'] + ['agg:' + a for a in NUM_AGGS + ANY_AGGS]
+              'key-row-number', 'wildcard-mapping', 'maps-onto-existing-target-column', 'falsy-first-value', 'spill-path (cache smaller than keys)', 'big-index (>10240 keys)', 'source-kept', 'kept-source-edited-later', 'equal-numbers-rendering-differently-as-keys', 'semi-join (no fields mapped)'] + ['agg:' + a for a in NUM_AGGS + ANY_AGGS]
     TIERS = {'quick': dict(runs=3000, wall=100, run_wall=300),
              'thorough': dict(runs=40000, wall=1700, run_wall=600)}
     SHRINK_FROZEN = ('fields_',)
@@ -145,6 +145,8 @@ class C11(Prop):
             fields[name] = spec
         if rng.random() < 0.15:
             fields['*'] = {'aggregate': rng.choice(['first', 'last', 'any'])}
+        if rng.random() < 0.07:
+            fields = {}          # a semi-join: nothing is copied over, the source only decides which target rows stay
         dedup = rng.random() < 0.2
         spec = {'source_key': sk, 'target_key': None if dedup else tk, 'fields': fields, 'mode': rng.choice(['inner', 'half-outer', 'half-outer', 'full-outer']),
                 'source_delete': rng.random() < 0.7}
@@ -284,6 +286,8 @@ class C11(Prop):
             ctx.probe('big-index (>10240 keys)')
         if isinstance(spec['source_key'], str):
             ctx.probe('key-row-number' if '#' in spec['source_key'] else 'key-format-string')
+        if not spec['fields']:
+            ctx.probe('semi-join (no fields mapped)')
         if '*' in spec['fields']:
             ctx.probe('wildcard-mapping')
         if not spec.get('source_delete', True):
